@@ -100,6 +100,16 @@ PROPS.update({
         "level_text": "copy_raw_name_from_str is proved equal to the spec function name_to_wire (labels = dot-separated labels, default zone unless a final dot) with acceptance iff wire <= 253; the C14 clauses (well-formed pointer-free result, LDH acceptance, the three rejections, text round trip) are proved lemmas over that spec function; reading back goes through raw_name_to_str / name() of unit U2, proved equal to the lower-cased text of the expansion",
         "technique": "Verus functional contract against a recursive spec function + spec-level lemmas for each clause of the statement",
     },
+    "C05": {
+        "title": "Decompression keeps the message; output is pointer-free, valid and stable",
+        "units": ["U6", "U1"],
+        "cone": {"U1": [r"DNSSector::(parse|parse_rr|parse_opt|parse_question|new)$"], "U6": [r"Compress::", r"spec/(uncompress|reader|locality|names|iter)\.rs", r"ResponseIterator::", r"QuestionIterator::", r"TypedIterable::(copy_raw_name|rr_type)$", r"RdataIterable::rr_rdlen$", r"ParsedPacket::into_iter_"]},
+        "witness": ("c05", 3000),
+        "level": "proof", "design_ref": "DESIGN.md section 5 C05",
+        "assumptions": U1_ASSUME + ["units with iterator client loops are verified with --no-lifetime (Verus's lifetime pass over ghost code is off; exec code is borrow-checked by rustc in the real crate)"],
+        "level_text": "uncompress / uncompress_with_previous_offset are proved to succeed exactly on accepted packets and to return uncompress_spec(p) (record by record: owner and rdata names expanded, RDLENGTH rewritten, everything else including OPT verbatim) together with the position of the carried record boundary (bmap)",
+        "technique": "Verus functional contract of the extracted decompressor against a recursive spec function, section loops verified through the iterator contracts",
+    },
     "C13": {
         "title": "Record text synthesises to the right wire record; bad text is an error",
         "units": ["U5"],
